@@ -207,8 +207,9 @@ pub fn check(ctx: &mut Ctx) {
 	ctx.run_sub(&crate::props::c06m::GivenUpByMiddleware);
 	ctx.run_sub(&crate::props::c06m::DroppedTogether);
 	ctx.run_sub(&crate::props::c06m::UnsubscribedTogether);
+	ctx.run_sub(&crate::props::c06m::ConnectionIdsAcrossThreads);
 }
 
 pub fn replay(file: &serde_json::Value) -> Option<i32> {
-	replay_with(&Bookkeeping, file, "C06").or_else(|| replay_with(&crate::props::c06m::ModuleLevel, file, "C06")).or_else(|| replay_with(&crate::props::c06m::GivenUpByMiddleware, file, "C06")).or_else(|| replay_with(&crate::props::c06m::DroppedTogether, file, "C06")).or_else(|| replay_with(&crate::props::c06m::UnsubscribedTogether, file, "C06"))
+	replay_with(&Bookkeeping, file, "C06").or_else(|| replay_with(&crate::props::c06m::ModuleLevel, file, "C06")).or_else(|| replay_with(&crate::props::c06m::GivenUpByMiddleware, file, "C06")).or_else(|| replay_with(&crate::props::c06m::DroppedTogether, file, "C06")).or_else(|| replay_with(&crate::props::c06m::UnsubscribedTogether, file, "C06")).or_else(|| replay_with(&crate::props::c06m::ConnectionIdsAcrossThreads, file, "C06"))
 }
